@@ -347,4 +347,105 @@ example : ∃ outA outB,
         rcases hr' with rfl | rfl | rfl | rfl <;> simp_all)
     (by simp) (exVote_ok _) rfl (by decide) (by decide) (by decide) (by decide)
 
+/-! ### flatten together with drop_level (D's `flatten_ignores_drop`, `flatten_drop_eq`) -/
+
+/-- flatten TOGETHER with drop_level on a validator-accepted stored taxonomy:
+the whole output equals that of the run with flatten alone ("flattening ...
+equals mapping on the reduced taxonomy": the reduced taxonomy is the one-level
+taxonomy of the leaves either way). -/
+theorem flatten_ignores_drop_of_validate {κ} (t0 t' : RawTree) (cfg : Config) (vote : Oracle κ)
+    (l : Level) (ids : List CellId) (cells : List κ) (order : List Nat)
+    (hdrop : t0.dropLevel l = .ok t')
+    (hval : t0.validate = .ok ()) (hd : DictOK t0) (hv : VoteOK t0.flatten vote)
+    (hlen : ids.length = cells.length) (hnd : ids.Nodup)
+    (hproc : 1 ≤ cfg.nProc) (hcs : 1 ≤ cfg.chunkSize)
+    (horder : order.Perm (List.range
+      (chunks cells.length (effChunk cells.length cfg.nProc cfg.chunkSize)).length)) :
+    mapPipeline t0 { cfg with dropLevel := some l, flatten := true } vote ids cells order =
+      mapPipeline t0 { cfg with dropLevel := none, flatten := true } vote ids cells order := by
+  obtain ⟨hm, _⟩ := dropLevel_hierarchy hdrop
+  obtain ⟨pre, cl, post, hs⟩ := split_of_mem_ne_getLast hm (dropLevel_not_leaf hdrop)
+  exact flatten_ignores_drop t0 t' cfg vote l cl pre post ids cells order hdrop hs
+    (wfb_of_validate hval hd) hv hlen hnd hproc hcs horder
+
+example : mapPipeline exTree { dropLevel := some 1, flatten := true, chunkSize := 2, nProc := 2 } exVote
+      [7, 3, 9] [0, 1, 2] [1, 0] =
+    mapPipeline exTree { dropLevel := none, flatten := true, chunkSize := 2, nProc := 2 } exVote
+      [7, 3, 9] [0, 1, 2] [1, 0] :=
+  flatten_ignores_drop_of_validate exTree exDropped { chunkSize := 2, nProc := 2 } exVote 1 [7, 3, 9]
+    [0, 1, 2] [1, 0] (by rfl) exTree_accepted.1 exTree_accepted.2 (exVote_ok _) rfl (by decide)
+    (by decide) (by decide) (by decide)
+
+/-- the C17 statement for flatten AND drop_level on a validator-accepted stored
+taxonomy: "at the leaf level exactly the result of mapping against a one-level
+taxonomy of the leaves, and every coarser level is the leaf's ancestor" — the
+dropped level included. -/
+theorem flatten_drop_eq_of_validate {κ} (t0 t' : RawTree) (cfg : Config) (vote : Oracle κ)
+    (l ll : Level) (ids : List CellId) (cells : List κ) (order : List Nat)
+    (hdrop : t0.dropLevel l = .ok t') (hleaf : t0.leafLevel = some ll)
+    (hval : t0.validate = .ok ()) (hd : DictOK t0) (hv : VoteOK t0.flatten vote)
+    (hlen : ids.length = cells.length) (hnd : ids.Nodup)
+    (hproc : 1 ≤ cfg.nProc) (hcs : 1 ≤ cfg.chunkSize)
+    (horder : order.Perm (List.range
+      (chunks cells.length (effChunk cells.length cfg.nProc cfg.chunkSize)).length))
+    (outA outB : List Record)
+    (hA : mapPipeline t0 { cfg with dropLevel := some l, flatten := true } vote ids cells order
+      = .ok outA)
+    (hB : mapPipeline t0.flatten { cfg with dropLevel := none, flatten := false } vote ids cells order
+      = .ok outB)
+    (i : Nat) (id : CellId) (c : κ) (hid : ids[i]? = some id) (hc : cells[i]? = some c) :
+    ∃ a b, outA[i]? = some a ∧ outB[i]? = some b ∧ a.cellId = b.cellId ∧
+      a.levels.lookup ll = b.levels.lookup ll ∧ (b.levels.lookup ll).isSome ∧
+      ∀ cp ∈ pairsOf t0.hierarchy.reverse,
+        ∃ ec pn, a.levels.lookup cp.1 = some ec ∧
+          t0.childToParent cp.1 ec.assignment = some pn ∧
+          a.levels.lookup cp.2 = some (inferred ec pn) := by
+  obtain ⟨hm, _⟩ := dropLevel_hierarchy hdrop
+  obtain ⟨pre, cl, post, hs⟩ := split_of_mem_ne_getLast hm (dropLevel_not_leaf hdrop)
+  exact flatten_drop_eq t0 t' cfg vote l cl ll pre post ids cells order hdrop hs hleaf
+    (wfb_of_validate hval hd) hv hlen hnd hproc hcs horder outA outB hA hB i id c hid hc
+
+/-- both runs of `flatten_drop_eq_of_validate` succeed (non-vacuity of the
+statement above, for every validator-accepted stored taxonomy) -/
+theorem flatten_drop_both_succeed_of_validate {κ} (t0 t' : RawTree) (cfg : Config)
+    (vote : Oracle κ) (l ll : Level) (ids : List CellId) (cells : List κ) (order : List Nat)
+    (hdrop : t0.dropLevel l = .ok t') (hleaf : t0.leafLevel = some ll)
+    (hval : t0.validate = .ok ()) (hd : DictOK t0) (hv : VoteOK t0.flatten vote)
+    (hlen : ids.length = cells.length) (hnd : ids.Nodup)
+    (hproc : 1 ≤ cfg.nProc) (hcs : 1 ≤ cfg.chunkSize)
+    (horder : order.Perm (List.range
+      (chunks cells.length (effChunk cells.length cfg.nProc cfg.chunkSize)).length)) :
+    (∃ outA, mapPipeline t0 { cfg with dropLevel := some l, flatten := true } vote ids cells order
+      = .ok outA) ∧
+    (∃ outB, mapPipeline t0.flatten { cfg with dropLevel := none, flatten := false } vote ids cells
+      order = .ok outB) := by
+  obtain ⟨hm, _⟩ := dropLevel_hierarchy hdrop
+  obtain ⟨pre, cl, post, hs⟩ := split_of_mem_ne_getLast hm (dropLevel_not_leaf hdrop)
+  exact flatten_drop_both_succeed t0 t' cfg vote l cl ll pre post ids cells order hdrop hs hleaf
+    (wfb_of_validate hval hd) hv hlen hnd hproc hcs horder
+
+example : (∃ outA, mapPipeline exTree { dropLevel := some 1, flatten := true, chunkSize := 2, nProc := 2 }
+      exVote [7, 3, 9] [0, 1, 2] [1, 0] = .ok outA) ∧
+    (∃ outB, mapPipeline exTree.flatten { dropLevel := none, flatten := false, chunkSize := 2, nProc := 2 }
+      exVote [7, 3, 9] [0, 1, 2] [1, 0] = .ok outB) :=
+  flatten_drop_both_succeed_of_validate exTree exDropped { chunkSize := 2, nProc := 2 } exVote 1 2
+    [7, 3, 9] [0, 1, 2] [1, 0] (by rfl) (by decide) exTree_accepted.1 exTree_accepted.2 (exVote_ok _)
+    rfl (by decide) (by decide) (by decide) (by decide)
+
+example : ∀ outA outB,
+    mapPipeline exTree { dropLevel := some 1, flatten := true, chunkSize := 2, nProc := 2 } exVote
+      [7, 3, 9] [0, 1, 2] [1, 0] = .ok outA →
+    mapPipeline exTree.flatten { dropLevel := none, flatten := false, chunkSize := 2, nProc := 2 } exVote
+      [7, 3, 9] [0, 1, 2] [1, 0] = .ok outB →
+    ∃ a b, outA[2]? = some a ∧ outB[2]? = some b ∧ a.cellId = b.cellId ∧
+      a.levels.lookup 2 = b.levels.lookup 2 ∧ (b.levels.lookup 2).isSome ∧
+      ∀ cp ∈ pairsOf exTree.hierarchy.reverse,
+        ∃ ec pn, a.levels.lookup cp.1 = some ec ∧
+          exTree.childToParent cp.1 ec.assignment = some pn ∧
+          a.levels.lookup cp.2 = some (inferred ec pn) :=
+  fun outA outB hA hB =>
+    flatten_drop_eq_of_validate exTree exDropped { chunkSize := 2, nProc := 2 } exVote 1 2 [7, 3, 9]
+      [0, 1, 2] [1, 0] (by rfl) (by decide) exTree_accepted.1 exTree_accepted.2 (exVote_ok _) rfl
+      (by decide) (by decide) (by decide) (by decide) outA outB hA hB 2 9 2 rfl rfl
+
 end CTM.C17
